@@ -172,99 +172,59 @@ def r2(ctx):
     f = ctx.facts
     b = f.body("sync::validate_entry")
     ctx.touch(b)
-    ps = P.explore(b)
-    okpaths = [p for p in ps if p.ret[0] == "variant" and p.ret[1] == "Ok"]
-    if not okpaths:
-        raise mir.AnchorMissing("validate_entry has no Ok path")
     c = f.const("sync::MAX_TIMESTAMP_FUTURE_SHIFT")
     ctx.check(c["val"] == 600_000_000, "C03.R2", "sync::MAX_TIMESTAMP_FUTURE_SHIFT", "value", "= %s us (ten minutes = 600000000)" % c["val"], c["sp"])
-
-    def classify(key):
-        if key[0] == "cmp":
-            a, bb = key[2], key[3]
-            if "namespace" in a + bb and "expected_namespace" in a + bb:
-                return "ns"
-            if "timestamp" in a or "timestamp" in bb:
-                return "ts"
-        if key[0] == "discr" and "origin" in key[1]:
-            return "origin"
-        if key[0] == "call" and key[1] in ("is_err", "is_ok") and "verify" in key[2]:
-            return "verify"
-        if key[0] == "not":
-            return classify(key[1])
-        return None
-
-    # check the future bound expression: ts compared against now + SHIFT
-    seen_kinds = set()
-    for p in okpaths:
-        d = {}
-        for k, v in p.decisions:
-            kind = classify(k)
-            if kind:
-                d[kind] = (k, v)
-                seen_kinds.add(kind)
-        # namespace must be decided equal
-        ns_ok = False
-        if "ns" in d:
-            k, v = d["ns"]
-            neg = False
-            while k[0] == "not":
-                neg = not neg
-                k = k[1]
-            truth = bool(v) != neg
-            ns_ok = (k[1] == "!=" and not truth) or (k[1] == "==" and truth)
-        ctx.check(ns_ok, "C03.R2", b.path, "ok-path.namespace-equal[%s]" % _pid(p), "Ok path decisions: %s" % P.fmt_decisions(p), b.loc(p.blocks[-1]))
-        # signature: either origin decided Local (variant 0) or verify decided ok
-        sig_ok = False
-        why = ""
-        if "verify" in d:
-            k, v = d["verify"]
-            neg = False
-            while k[0] == "not":
-                neg = not neg
-                k = k[1]
-            truth = bool(v) != neg
-            sig_ok = (k[1] == "is_err" and not truth) or (k[1] == "is_ok" and truth)
-            why = "verify ok"
-        elif "origin" in d:
-            k, v = d["origin"]
-            adt = f.adt("sync::InsertOrigin")
-            local_idx = [i for i, vv in enumerate(adt["variants"]) if vv["name"] == "Local"][0]
-            sig_ok = (v == local_idx)
-            why = "origin discriminant %s (Local=%d)" % (v, local_idx)
-        ctx.check(sig_ok, "C03.R2", b.path, "ok-path.signature-or-local[%s]" % _pid(p), "%s; %s" % (why, P.fmt_decisions(p)), b.loc(p.blocks[-1]))
-        # timestamp: Ok must be impossible for Greater
-        ts_ok = False
-        if "ts" in d:
-            k, v = d["ts"]
-            neg = False
-            while k[0] == "not":
-                neg = not neg
-                k = k[1]
-            truth = bool(v) != neg
-            tbl = TRUTH[k[1]]
-            if "timestamp" in k[3] and "timestamp" not in k[2]:
-                tbl = flip(tbl)
-            # orderings of cmp(entry.timestamp, bound) consistent with this path
-            consistent = [o for o in ("Less", "Equal", "Greater") if tbl[o] == truth]
-            ts_ok = "Greater" not in consistent
-            ctx.check(ts_ok, "C03.R2", b.path, "ok-path.not-future[%s]" % _pid(p), "Ok reachable for cmp(timestamp, now+SHIFT) in %s" % consistent, b.loc(p.blocks[-1]))
-        else:
-            ctx.bad("C03.R2", b.path, "ok-path.not-future[%s]" % _pid(p), "Ok path without a timestamp test: %s" % P.fmt_decisions(p), b.loc(p.blocks[-1]))
-    # the bound is now + SHIFT
-    bound_ok = False
-    for bi, si, s in b.statements():
-        r = s["r"] if s["k"] == "assign" else None
-        if r and r[0] == "bin" and r[1] in ("Add", "AddWithOverflow", "AddUnchecked"):
-            ops = [r[2], r[3]]
-            has_now = any(o[0] != "const" and any(x.kind == "arg" and x.data[1] == "now" for x in trace(b, o)) for o in ops)
-            has_shift = any(o[0] == "const" and o[1].get("def") == "sync::MAX_TIMESTAMP_FUTURE_SHIFT" for o in ops)
-            if has_now and has_shift:
-                bound_ok = True
-    ctx.check(bound_ok, "C03.R2", b.path, "bound-is-now-plus-SHIFT", "the future bound is computed as now + MAX_TIMESTAMP_FUTURE_SHIFT", b.sp)
-    # the clock: callers pass system_time_now()
-    for must in ("ns", "ts", "verify", "origin"):
-        ctx.check(must in seen_kinds, "C03.R2", b.path, "tests-present.%s" % must, "an Ok path decides on %s" % must, b.sp)
+    # validate_entry evaluated (K6') over: namespace {same, other} x origin {Local, Sync} x verify {Ok, Err(Signature), Err(KeyParsing)}
+    # x cmp(entry.timestamp, bound) {Less, Equal, Greater}; spec from the property text:
+    # Ok iff same namespace and (Local or signatures verify) and the timestamp is not greater than now + SHIFT
+    from . import feval as E
+    OR = "sync::InsertOrigin"
+    VE = "sync::SignedEntryVerifyError"
+    bounds_seen = set()
+    ns_seen = set()
+    bad_rows = []
+    n_rows = 0
+    unsupported = None
+    for ns_same in (1, 0):
+        for origin in ("Local", "Sync"):
+            for ver in ("Ok", "Signature", "KeyParsing"):
+                for order in (-1, 0, 1):
+                    def oracle(kind, a, b2, site, ns_same=ns_same, ver=ver, order=order):
+                        if kind == "call":
+                            t, args, it = b2
+                            if a == "verify":
+                                if ver == "Ok":
+                                    return E.Ok(E.UNIT)
+                                return E.Err(E.variant(f, VE, ver, E.Tok("why")))
+                            return None
+                        sa, sb = str(a), str(b2)
+                        if kind in ("eq", "cmp") and "namespace" in sa + sb:
+                            ns_seen.add(tuple(sorted((sa, sb))))
+                            return bool(ns_same) if kind == "eq" else (0 if ns_same else 1)
+                        if kind in ("eq", "cmp") and "timestamp" in sa + sb:
+                            ts_first = "timestamp" in sa
+                            bounds_seen.add(sb if ts_first else sa)
+                            o = order if ts_first else -order
+                            return (o == 0) if kind == "eq" else o
+                        return None
+                    og = E.variant(f, OR, "Local") if origin == "Local" else E.variant(f, OR, "Sync", E.Tok("from"), E.Tok("status"))
+                    heap = {"store": E.Tok("store"), "entry": E.Tok("entry"), "origin": og}
+                    want = "Ok" if (ns_same and (origin == "Local" or ver == "Ok") and order <= 0) else "Err"
+                    n_rows += 1
+                    try:
+                        ret, hp, ev = E.run(f, b.path, [E.Tok("now"), E.href("store"), E.Tok("expected_namespace"), E.href("entry"), E.href("origin")], heap, oracle)
+                        got = E.describe(ret, f).split("(")[0]
+                    except E.Unsupported as e:
+                        got = "UNSUPPORTED-FORM"
+                        unsupported = str(e)
+                    if got != want:
+                        bad_rows.append(("ns_same=%d" % ns_same, origin, "verify=" + ver, "cmp(ts,bound)=%s" % {-1: "Less", 0: "Equal", 1: "Greater"}[order], "-> " + got, "spec " + want))
+    ctx.check(not bad_rows, "C03.R2", b.path, "acceptance-table",
+              "%d cells evaluated; deviating cells: %s%s" % (n_rows, bad_rows[:6], (" (%s)" % unsupported) if unsupported else ""), b.sp)
+    okb = bounds_seen and all(x in ("Add(now,600000000)", "Add(600000000,now)") for x in bounds_seen)
+    ctx.check(bool(okb), "C03.R2", b.path, "bound-is-now-plus-SHIFT", "entry.timestamp() is compared with %s (spec: now + MAX_TIMESTAMP_FUTURE_SHIFT)" % sorted(bounds_seen), b.sp)
+    okn = ns_seen == {("expected_namespace", "namespace(entry)")}
+    ctx.check(okn, "C03.R2", b.path, "namespace-compared-with-expected", "compared: %s" % sorted(ns_seen), b.sp)
     # validate_empty: Ok iff (hash==EMPTY) == (len==0) -- finite evaluation over the two atoms
     from . import feval as E
     ve = f.body("sync::Entry::validate_empty")
@@ -291,7 +251,7 @@ def r2(ctx):
     ctx.touch(se)
     cs = [t for _, t in se.calls()]
     ctx.check(any(callee_matches(t, r"sync::Entry::validate_empty$") and t["d"]["l"] == 0 for t in cs), "C03.R2", se.path, "delegates", "SignedEntry::validate_empty returns Entry::validate_empty's verdict", se.sp)
-    ctx.floor("C03.R2", 10)
+    ctx.floor("C03.R2", 6)
 
 
 def _pid(p):
